@@ -841,6 +841,11 @@ class Interp:
             return Tup([Opaque("h"), Opaque("l"), Opaque("s")])
         if fname in ("min", "max") and len(pos) == 2:
             a, b = as_iv(pos[0]), as_iv(pos[1])
+            INF = float("inf")
+            if a is None and b is not None and isinstance(pos[0], Opaque):
+                a = (-INF, INF, False)
+            if b is None and a is not None and isinstance(pos[1], Opaque):
+                b = (-INF, INF, False)
             if a and b:
                 f = min if fname == "min" else max
                 isint = a[2] and b[2]
